@@ -19,9 +19,8 @@ A_BS4 = 'A-bs4 (bs4 object model: parent/contents/sibling links, node kinds, att
 A_IR = 'A-ir (IR values are finite and acyclic; matcher contracts quantify over well-formed IR: ir_wf_list)'
 A_SMT = 'A-smt (z3 5.1 / cvc5 1.0.3 answer unsat only when true)'
 A_RE = 'A-re (CPython re accepts exactly the translated language of the patterns involved)'
-OPAQUE_NOTE = ('contracts assumed, not yet discharged by pyvc (their bodies are covered only by the bounded tier): normalize_value, split_namespace, '
-               'get_tag_children, get_tag_descendants, get_children, match_defined, match_placeholder_shown, '
-               'match_lang, match_default, match_indeterminate, match_dir, get_text, get_own_text; '
+OPAQUE_NOTE = ('contracts assumed, not yet discharged by pyvc (their bodies are covered only by the bounded tier): normalize_value, split_namespace, create_fake_parent, '
+               'get_descendants / get_tag_descendants (iframe-skipping walk), match_lang, match_default, match_indeterminate, match_dir; '
                ' termination of the mutual recursion through sub-lists rests on A-ir')
 
 ALL_HTML = ['basic', 'nows', 'multiroot', 'forms', 'ranges', 'lang', 'dir', 'iframe', 'text', 'attrs', 'identical']
@@ -44,3 +43,5 @@ def laws_bounded(name, docs, groups, nsnames=('none',)):
     return run
 
 STRUCT = [M + 'match_empty', M + 'match_root']
+
+KIDS = [N + f for f in ('get_children', 'get_tag_children', 'get_text', 'get_own_text')] + [M + 'match_defined', M + 'match_placeholder_shown']
